@@ -355,6 +355,25 @@ example : simpleName (jstr "org/example/ClassName") = jstr "ClassName" := by dec
 theorem split_join {s p i : JStr} (h : InnerNames.split s = some (p, i)) : InnerNames.join p i = s :=
   Thm.C11.split_join h
 
+/-- the two accessors `get_inner_class_parent` / `get_inner_class_name` are the two halves of the split: they are both
+present or both absent, and when present they recombine to the name -/
+theorem inner_parts_are_split (s : JStr) :
+    (InnerNames.innerParent s).isSome = (InnerNames.innerName s).isSome ∧
+    ∀ p i, InnerNames.innerParent s = some p → InnerNames.innerName s = some i → InnerNames.join p i = s := by
+  unfold InnerNames.innerParent InnerNames.innerName
+  cases h : InnerNames.split s with
+  | none => simp
+  | some pi =>
+    obtain ⟨p, i⟩ := pi
+    refine ⟨by simp, ?_⟩
+    intro p' i' hp hi
+    simp only [Option.map_some, Option.some.injEq] at hp hi
+    subst hp; subst hi
+    exact Thm.C11.split_join h
+
+example : InnerNames.innerParent (jstr "a/B$C") = some (jstr "a/B") ∧ InnerNames.innerName (jstr "a/B$C") = some (jstr "C") ∧
+    InnerNames.innerName (jstr "com/sun/proxy/$Proxy0") = none := by decide
+
 theorem join_split {p i : JStr} (hp : p ≠ []) (hi : i ≠ []) (hps : p.getLast? ≠ some InnerNames.SLASH)
     (his : InnerNames.SLASH ∉ i) (hid : InnerNames.DOLLAR ∉ i) :
     InnerNames.split (InnerNames.join p i) = some (p, i) :=
